@@ -13,6 +13,7 @@ import (
 // Behaviour of a fake process, selected by the base name of the executable / the runtime.
 type Behaviour struct {
 	ExecFails bool   // Exec returns an error
+	ExecHold  bool   // Exec starts the process but returns only when released (ReleaseExec)
 	OnTerm    string // "exit:<code>" | "ignore" (default: ignore)
 }
 
@@ -36,10 +37,11 @@ type FakeSup struct {
 	events chan supvmodel.Event
 	Beh    map[string]Behaviour
 	nEvent map[string]int
+	holds  map[string]chan struct{} // base name -> an Exec call that has not returned yet
 }
 
 func NewFakeSup(l *Log) *FakeSup {
-	return &FakeSup{L: l, procs: map[string]*Proc{}, events: make(chan supvmodel.Event, 4096), Beh: map[string]Behaviour{}, nEvent: map[string]int{}}
+	return &FakeSup{L: l, procs: map[string]*Proc{}, events: make(chan supvmodel.Event, 4096), Beh: map[string]Behaviour{}, nEvent: map[string]int{}, holds: map[string]chan struct{}{}}
 }
 
 func baseOf(name string) string {
@@ -82,7 +84,27 @@ func (f *FakeSup) Exec(_ context.Context, r *supvmodel.ExecRequest) error {
 	}
 	f.L.Add("#envkeys %s AKID=%d SECRET=%d SESSION=%d TOKEN=%d URI=%d API=%s", r.Name, has("AWS_ACCESS_KEY_ID"), has("AWS_SECRET_ACCESS_KEY"),
 		has("AWS_SESSION_TOKEN"), has("AWS_CONTAINER_AUTHORIZATION_TOKEN"), has("AWS_CONTAINER_CREDENTIALS_FULL_URI"), p.Env["AWS_LAMBDA_RUNTIME_API"])
+	if f.Beh[base].ExecHold {
+		// the process runs, the call has not returned to the platform yet (a slow fork/exec)
+		ch := make(chan struct{})
+		f.holds[base] = ch
+		f.mu.Unlock()
+		<-ch
+		f.mu.Lock()
+	}
 	return nil
+}
+
+// ReleaseExec lets a held Exec call of that base name return.
+func (f *FakeSup) ReleaseExec(base string) bool {
+	f.mu.Lock()
+	defer f.mu.Unlock()
+	ch, ok := f.holds[base]
+	if ok {
+		delete(f.holds, base)
+		close(ch)
+	}
+	return ok
 }
 
 func (f *FakeSup) exitLocked(p *Proc, code *int32, sig *int32) {
